@@ -18,7 +18,7 @@ ROOT = os.path.dirname(os.path.dirname(os.path.abspath(__file__)))
 CHECKS = [
     (r"^src/parse/", ["C01", "C02", "C07", "C05", "C12", "C03"]),
     (r"^src/print/", ["C08", "C04", "C13"]),
-    (r"^src/object/", ["C06", "C14", "C15", "C09", "C02"]),
+    (r"^src/object/", ["C06", "C11", "C14", "C15", "C09", "C02"]),
     (r"^src/code_map", ["C05", "C11"]),
     (r"^src/try_from", ["C11"]),
     (r"^src/kind", ["C20", "C11"]),
@@ -26,7 +26,7 @@ CHECKS = [
     (r"^src/serde/", ["C16", "C17"]),
     (r"^src/convert/", ["C18"]),
     (r"^src/unordered", ["C15"]),
-    (r"^src/lib.rs", ["C08", "C11", "C14", "C09", "C10", "C02", "C15"]),
+    (r"^src/lib.rs", ["C08", "C20", "C11", "C14", "C09", "C10", "C02", "C15"]),
     (r"^src/array", ["C11", "C14"]),
     (r"", ["C01", "C04", "C06"]),
 ]
